@@ -1,8 +1,10 @@
 package mon
 
 import (
+	"errors"
 	"log"
 	"sync/atomic"
+	"time"
 
 	stackage "github.com/JesseCoretta/go-stackage"
 	"verifharness/core"
@@ -45,13 +47,17 @@ func procWarm(mode int) {
 		ac, sc, xc := ACond(stackage.Cond("k", stackage.Eq, "v")), SCond(stackage.Cond("k", stackage.Eq, "v")), XCond(stackage.Cond("k", stackage.Eq, "v"))
 		ns, nc := stackage.Not().Push("w"), stackage.Cond("k", stackage.Ne, "v")
 		pas, pac := &as, &ac
-		vals = []any{as, ss, xs, ac, sc, xc, &as, &ss, &xs, &ac, &sc, &xc, &pas, &pac, ns, nc, &ns, &nc}
+		vals = []any{as, ss, xs, ac, sc, xc, &as, &ss, &xs, &ac, &sc, &xc, &pas, &pac, ns, nc, &ns, &nc,
+			// ... and live values of the leaf types that carry methods of their own
+			Name("shown"), time.Duration(1500), UserOp{"~=", "ctx"}, EnumOp(1), errors.New("e"), StrStruct{Name: "n"}}
 	} else {
 		var pas *AStack
 		var pac *ACond
 		vals = []any{AStack{}, SStack{}, XStack{}, ACond{}, SCond{}, XCond{}, (*AStack)(nil), (*SStack)(nil), (*XStack)(nil),
 			(*ACond)(nil), (*SCond)(nil), (*XCond)(nil), &pas, &pac, (**AStack)(nil), (*stackage.Stack)(nil), (*stackage.Condition)(nil),
-			&AStack{}, &ACond{}, stackage.Stack{}, stackage.Condition{}}
+			&AStack{}, &ACond{}, stackage.Stack{}, stackage.Condition{},
+			// ... and ZERO values / typed nils of the leaf types that carry methods of their own
+			Name(""), time.Duration(0), UserOp{}, EnumOp(0), (*Name)(nil), StrStruct{}, (*StrStruct)(nil), UnitOp{}}
 	}
 	for _, v := range vals {
 		v := v
@@ -65,6 +71,8 @@ func procWarm(mode int) {
 			s.Unmarshal()
 			s.IsEqual(stackage.And().Push("a", v))
 			stackage.And().SetNoNesting(true).Push(v)
+			s.Less(0, 1)
+			stackage.Cond(v, stackage.Eq, "as-keyword")
 			cd := stackage.Cond("k", stackage.Eq, v)
 			_ = cd.String()
 			cd.IsNesting()
